@@ -42,7 +42,7 @@ def _worker(task):
     modname, part, nparts, seed, tier = task
     mod = common.module(modname)
     sc = G.budget_scale(mod)
-    P = G.scaled_params(PARAMS[tier], sc)
+    P = G.scaled_params(PARAMS[tier], sc, tier)
     rng = G.task_rng(seed, PROPERTY, modname, part)
     fnd, st = G.Findings(), G.Stats()
     rf = G.relfile(mod)
@@ -55,7 +55,7 @@ def _worker(task):
     samples = []
 
     def violation(fn, site, x, spec, kw, today, observed, expected, relation):
-        size = (len(x) if isinstance(x, str) else 0) + len(kw)
+        size = G.wsize(kw, x)
         # ties: plain common.non_strings() values before the hostile objects
         tb = ('0' if spec is None or spec[0] == 'ns' else '1') + repr(
             (x if spec is None else spec, G.kw_key(kw), str(today)))[:400]
